@@ -52,11 +52,12 @@ impl<R: Round, const B: Word> FBig<R, B> {
     // this number.
     pub(crate) fn split_at_point_internal(&self) -> (IBig, IBig, usize) {
         debug_assert!(self.repr.exponent < 0);
+        let shift = (-self.repr.exponent) as usize;
         if self.repr.smaller_than_one() {
-            return (IBig::ZERO, self.repr.significand.clone(), self.context.precision);
+            // the fraction is significand / B^shift: its digit count is given by the exponent
+            return (IBig::ZERO, self.repr.significand.clone(), shift);
         }
 
-        let shift = (-self.repr.exponent) as usize;
         let (hi, lo) = split_digits_ref::<B>(&self.repr.significand, shift);
         (hi, lo, shift)
     }
